@@ -7,7 +7,7 @@ RULE = ("planted instances with sigma_min([G;A]) >= 0.2, interior/certificate ma
         "class signature = entry x planted kind x cone shape class x status x storage x (rows(G)<n and p>0)")
 ASSUMPTIONS = ["'moderately conditioned' is fixed as singular values of [G;A] in [0.2, ~6] and margins >= 0.2, re-measured after every construction step",
                "cpl/cp/gp are classified on planted strictly feasible smooth problems from the C04 families (they have no infeasibility status)"]
-REQUIRED_COUNTERS = ["judged.conelp.feasible", "judged.conelp.pinf", "judged.conelp.dinf", "judged.lp.feasible", "judged.lp.pinf",
+REQUIRED_COUNTERS = ["cpl.mnl-0-cone-lp", "judged.conelp.feasible", "judged.conelp.pinf", "judged.conelp.dinf", "judged.lp.feasible", "judged.lp.pinf",
                      "judged.lp.dinf", "judged.socp.feasible", "judged.socp.pinf", "judged.sdp.feasible", "judged.sdp.dinf",
                      "judged.coneqp.feasible", "judged.coneqp.pinf", "judged.qp.feasible", "judged.cpl.feasible", "judged.cp.feasible", "judged.gp.feasible", "class.rowsG<n,p>0"]
 
